@@ -3131,7 +3131,8 @@ class Gaussian(Preparation, Decomposition):
             # covariance matrix consists of x/p quadrature squeezed state
             for n, expr in enumerate(D[: self.ns]):
                 if np.abs(expr - 1) >= _decomposition_tol:
-                    r = np.abs(np.log(expr) / 2)
+                    # expr = exp(-2r) is the variance of the x quadrature: r < 0 if it is anti-squeezed
+                    r = -np.log(expr) / 2
                     cmds.append(Command(Squeezed(r, 0), reg[n]))
                 else:
                     cmds.append(Command(Vac, reg[n]))
